@@ -19,7 +19,11 @@ ExpectedEnumMap(field, lo, hi) ==
 VEnumMap(ev) ==
   (IF ev.out.t # "ok" THEN <<"outcome-" \o ev.out.t>>
    ELSE T(ev.tested # ev.hi - ev.lo + 1, "harness-enum-range")
-        \o T(Range(ev.accepted) # ExpectedEnumMap(ev.field, ev.lo, ev.hi), "enum-map")
+        \o T(LET exp == ExpectedEnumMap(ev.field, ev.lo, ev.hi)
+                 \* an assigned attribute type whose own reader complains about the probe payload is still dispatched
+                 norm(e) == IF ev.field = "AttributeType" /\ e[2] = "error-own" /\ e[1] \in AttributeTypes
+                              THEN <<e[1], KindName(e[1]), <<e[1]>>>> ELSE e
+             IN { norm(ev.accepted[i]) : i \in 1..Len(ev.accepted) } # exp, "enum-map")
         \o T(Len(ev.accepted) # Cardinality(Range(ev.accepted)), "enum-map"))
   \o IoTags(ev)
 
